@@ -674,6 +674,20 @@ def rule_m3(prog, rep, om, units):
 
 def _m3_func(prog, rep, om, f, rid):
     reported = set()
+    raw_params = {}
+    for p in f.params:
+        t = ((p.get('type') or {}).get('qualType') or '').replace('const ', '').strip()
+        raw_params[p.get('name')] = t in ('void *', 'char *', 'unsigned char *')
+    field_types = {}
+    for x in walk(f.body):
+        if x.get('kind') == 'MemberExpr' and x.get('isArrow'):
+            ap = access_path(x)
+            if ap:
+                field_types[ap] = qtype(x) or ''
+
+    def payload_field(fp):
+        t = field_types.get(fp, '').replace('const ', '').strip()
+        return t in ('void *', 'char *', 'unsigned char *')
 
     def uses_freed(st, p):
         for fp in st:
@@ -709,6 +723,16 @@ def _m3_func(prog, rep, om, f, rid):
                         fp = uses_freed(s, p)
                         if fp and fp == p:
                             report(call.get('_line'), p, fp, 'double free' if p in fa else 'use as call argument')
+                # a raw pointer handed in by the caller may point into the payload just freed (it can come from a
+                # non-copying get): reading through it while an owned payload field is freed-and-not-yet-replaced
+                # is a use after free for that caller.  (Allocate and copy first, release the old block afterwards.)
+                if not freed_args:
+                    for a in children(call)[1:]:
+                        sa = strip(a)
+                        if sa.get('kind') == 'DeclRefExpr' and (sa.get('_ref') or ('',))[0] == 'param' and raw_params.get(sa['_ref'][2]):
+                            for fp in sorted(s):
+                                if '->' in fp and payload_field(fp):
+                                    report(call.get('_line'), sa['_ref'][2], fp, 'read through caller pointer')
                 for p in fa:
                     if p:
                         s.add(p)
